@@ -97,9 +97,9 @@ async def calculate_in_subprocess(func: Callable[..., Union[T, Awaitable[T]]], *
         result = rx.recv()
     except (EOFError, OSError):  # the subprocess terminated without sending a (complete) result
         result = SubprocessError(ex=ChildProcessError('The subprocess terminated without returning a result.'))
-
-    process.join()  # this blocks synchronously! make sure that process is terminated before you call join()
-    rx.close()
+    finally:  # also when unpickling the result raises: reap the subprocess and close the read end
+        process.join()  # this blocks synchronously! make sure that process is terminated before you call join()
+        rx.close()
 
     if isinstance(result, SubprocessError):
         raise result.exception
